@@ -31,6 +31,12 @@ def gen_network_shape(r, ncells, max_branches=4, max_ncomp=3, same_layout=False)
     otherwise irregular (only jax.sparse is guaranteed to accept)."""
     k = r.randint(1, max_ncomp) if same_layout else None
     cells = [gen_cell(r, max_branches, max_ncomp, uniform_ncomp=k) for _ in range(ncells)]
+    if ncells > 1 and r.random() < 0.25:
+        # identical cells: with share="all" the very same Cell object is listed several times
+        src = r.randrange(ncells)
+        for j in range(ncells):
+            if r.random() < 0.5:
+                cells[j] = copy.deepcopy(cells[src])
     return {"kind": "network", "cells": cells, "share": _share(r)}
 
 
